@@ -70,7 +70,19 @@ func (c *CommandProcessor) Process(data []byte, db *sql.SwappableDB) (*proto.Com
 			panic(fmt.Sprintf("failed to unmarshal execute-query subcommand: %s", err.Error()))
 		}
 		r, err := db.Request(eqr.Request, eqr.Timings)
-		return cmd, ExecuteQueryResponses(r).Mutation(), &fsmExecuteQueryResponse{results: r, error: err}
+		mutated := ExecuteQueryResponses(r).Mutation()
+		if !mutated {
+			// A write with a RETURNING clause is forced down the query path, so
+			// it is answered with rows rather than an execute result. It still
+			// changes the database.
+			for _, stmt := range eqr.Request.GetStatements() {
+				if stmt.GetForceQuery() {
+					mutated = true
+					break
+				}
+			}
+		}
+		return cmd, mutated, &fsmExecuteQueryResponse{results: r, error: err}
 	case proto.Command_COMMAND_TYPE_LOAD:
 		var lr proto.LoadRequest
 		if err := command.UnmarshalLoadRequest(cmd.SubCommand, &lr); err != nil {
